@@ -1330,6 +1330,11 @@ class Model:
         seeds = jax.random.split(seed, len(dists))
 
         for dist, seed in zip(dists, seeds):
+            # the parameters of the distribution must reflect the values drawn so far,
+            # also if the auto-update of the model is disabled
+            for _input in (*dist.inputs, *dist.kwinputs.values()):
+                self.update(_input.name)
+
             tfp_dist = dist.init_dist()
 
             event_shape = tfp_dist.event_shape
